@@ -124,7 +124,30 @@ pub fn draw_args(rng: &mut Rng, m: &Msg) -> (Name, Name, bool, &'static str) {
                 (base.clone(), "whole-name")
             }
         }
-        8 => (fresh(rng), "absent"),
+        8 => {
+            if rng.chance(1, 2) {
+                (fresh(rng), "absent")
+            } else {
+                // one byte differs in bit 5 only, and it is not a letter: a different name
+                let mut n = base.clone();
+                let mut cands: Vec<(usize, usize)> = vec![];
+                for (li, l) in n.0.iter().enumerate() {
+                    for (bi, &c) in l.iter().enumerate() {
+                        let f = c ^ 0x20;
+                        if !c.is_ascii_alphabetic() && !(f < 0x21 || f == 0x7f || f == b'.' || f == b'\\') {
+                            cands.push((li, bi));
+                        }
+                    }
+                }
+                if cands.is_empty() {
+                    (fresh(rng), "absent")
+                } else {
+                    let (li, bi) = *rng.pick(&cands);
+                    n.0[li][bi] ^= 0x20;
+                    (n, "bit5-near-miss")
+                }
+            }
+        }
         _ => {
             let k = rng.below(base.0.len());
             (Name(base.0[k..].to_vec()), "suffix-at-depth")
@@ -133,9 +156,9 @@ pub fn draw_args(rng: &mut Rng, m: &Msg) -> (Name, Name, bool, &'static str) {
     let target = match rng.below(10) {
         0 => source.clone(), // identity
         1 | 2 => {
-            // grow towards the 255 limit
-            let w = rng.range(200, 255);
-            name_of_wire_len(rng, if w == 2 { 3 } else { w })
+            // grow towards the 255 limit (the longest legal name itself included)
+            let w = *rng.pick(&[255usize, 255, 254, 253, 250, 230, 200]);
+            name_of_wire_len(rng, w)
         }
         3 => rng.pick(&names).clone(),
         4 => Name(vec![gen_label(rng, &cfg)]),
@@ -269,8 +292,9 @@ pub fn run(ctx: &mut Ctx) {
         ctx.begin_case(case);
         let mut rng = Rng::for_case(ctx.seed, "c07", 0, case);
         let cfg = Cfg {
-            alphabet: *rng.pick(&[3usize, 4, 6]),
-            max_records: 10,
+            alphabet: *rng.pick(&[3usize, 4, 6, 24]),
+            // now and then a packet well beyond 1 KiB, with pointers to far offsets
+            max_records: if rng.chance(1, 12) { 60 } else { 10 },
             long_names: rng.chance(1, 4),
             ..Default::default()
         };
